@@ -183,8 +183,32 @@ func main() {
 			continue
 		}
 		dir, _ := os.MkdirTemp("", "bs")
-		bs, err := storethehash.OpenHashedBlockstore(context.Background(), filepath.Join(dir, "i"), filepath.Join(dir, "d"),
-			store.IndexBitSize(12), store.GCInterval(time.Hour), store.SyncInterval(time.Hour))
+		// "fill=J ; ops": the primary file size limit is the total size of the records of the first J distinct blocks the sequence
+		// puts, so that a record ends exactly on the limit (the adapter's store then rolls over to the next primary file there)
+		opts := []store.Option{store.IndexBitSize(12), store.GCInterval(time.Hour), store.SyncInterval(time.Hour)}
+		if strings.HasPrefix(line, "fill=") {
+			head := line[:strings.Index(line, ";")]
+			line = strings.TrimSpace(line[len(head)+1:])
+			j, _ := strconv.Atoi(strings.TrimSpace(strings.TrimPrefix(head, "fill=")))
+			total, seenMH := 0, map[string]bool{}
+			for _, p := range strings.Split(line, ";") {
+				f := strings.Fields(p)
+				if len(f) < 2 || f[len(f)-1] == "c" || (f[0] != "put" && f[0] != "putmany") {
+					continue
+				}
+				for _, x := range strings.Split(f[1], ",") {
+					c, b := variant(x)
+					if len(seenMH) < j && !seenMH[string(c.Hash())] {
+						seenMH[string(c.Hash())] = true
+						total += 4 + len(c.Hash()) + len(blockData(b))
+					}
+				}
+			}
+			if total > 0 {
+				opts = append(opts, store.PrimaryFileSize(uint32(total)), store.IndexFileSize(uint32(256)))
+			}
+		}
+		bs, err := storethehash.OpenHashedBlockstore(context.Background(), filepath.Join(dir, "i"), filepath.Join(dir, "d"), opts...)
 		if err != nil {
 			panic(err)
 		}
@@ -272,8 +296,7 @@ func main() {
 			case "flush":
 				// the adapter has no Flush; Start/Close are the only other entry points. Reopen instead.
 				bs.Close()
-				bs, err = storethehash.OpenHashedBlockstore(context.Background(), filepath.Join(dir, "i"), filepath.Join(dir, "d"),
-					store.IndexBitSize(12), store.GCInterval(time.Hour), store.SyncInterval(time.Hour))
+				bs, err = storethehash.OpenHashedBlockstore(context.Background(), filepath.Join(dir, "i"), filepath.Join(dir, "d"), opts...)
 				if err != nil {
 					panic(err)
 				}
